@@ -6,7 +6,7 @@ from drivers import metrics_common as mc
 
 
 def run(rep, tier, seed):
-    cases = mc.gen(rep, ["MC_metrics_rpe.cfg" if tier == "quick" else "MC_metrics_rpe_thorough.cfg"])
+    cases = mc.gen(rep, ["MC_metrics_rpe.cfg", "MC_metrics_rpe4light.cfg"] if tier == "quick" else ["MC_metrics_rpe_thorough.cfg"])
     import evo.core.metrics  # noqa: F401
     obs = core.pmap(metricsexec.exec_rpe, [(n, c, seed) for n, c in enumerate(cases)], chunksize=200)
     nref = 0
